@@ -2,13 +2,15 @@ module elkverif
 
 go 1.25.0
 
-require github.com/elk-language/elk v0.0.0
+require (
+	github.com/cespare/xxhash/v2 v2.2.0
+	github.com/elk-language/elk v0.0.0
+)
 
 require (
 	github.com/ALTree/bigfloat v0.2.0 // indirect
 	github.com/aymanbagabas/go-osc52/v2 v2.0.1 // indirect
 	github.com/bmatcuk/doublestar/v4 v4.8.0 // indirect
-	github.com/cespare/xxhash/v2 v2.2.0 // indirect
 	github.com/charmbracelet/bubbles v0.21.0 // indirect
 	github.com/charmbracelet/bubbletea v1.3.6 // indirect
 	github.com/charmbracelet/colorprofile v0.2.3-0.20250311203215-f60798e515dc // indirect
